@@ -22,7 +22,8 @@ ASSUME = [
     'cycle point = virtual now; localhost jobs',
     'the virtual clock advances by the main-loop interval per iteration and '
     'by `jump` events to the earliest pending clock-expire (and, where '
-    'configured, retry) deadline; expiry deadlines are registered for '
+    'configured, retry) deadline, or to one second before it; expiry '
+    'deadlines are registered for '
     'waiting tasks only, so the clock passes the expiry time of an active '
     'task only where another, later deadline exists (two-offset workflows)',
     'operator alphabet: force_trigger_tasks / hold of the clock-expire '
@@ -71,6 +72,9 @@ def catalogue(tier: str):
         # queued behind a: the clock passes e's expiry time while it waits
         ('queued-PT1H', [('P1', [N('a')] + base)], 1, 'e(PT1H)',
          {'queues': q1('a', 'e')}, ('e',), (), ('expire',)),
+        # expiry NOT optional: the expired task stays in the pool
+        ('required-PT1H', [('P1', [N('a'), E(A('e'), 'c')])], 1, 'e(PT1H)',
+         {'queues': q1('a', 'e')}, (), (), ('expire',)),
         # due exactly at boot (now == expiry time) / long overdue at boot
         ('boot-PT0S', [('P1', base)], 1, 'e(PT0S)', {}, ('e',), (),
          ('expire',)),
@@ -149,7 +153,8 @@ def run(ctx: Ctx) -> Result:
                 'expiries_of_held_tasks', 'expiries_of_retrying_tasks',
                 'expire_children_checked',
                 'states_manual_task_past_expiry_time',
-                'states_active_task_past_expiry_time', 'submissions')
+                'states_active_task_past_expiry_time',
+                'states_waiting_task_just_before_expiry', 'submissions')
         missing = [k for k in need if not counts.get(k)]
         if missing:
             raise HarnessError(
